@@ -172,6 +172,15 @@ symbol_literal = Parser.regex(r"[a-z_$][a-z_0-9$.]*")
 instruction_name = Parser.regex(r"\.?[a-z_][a-z_0-9$.]*")
 
 
+def to_int(digits, base):
+    # int() refuses decimal strings of more than a few thousand digits
+    value = 0
+    for i in range(0, len(digits), 1000):
+        chunk = digits[i:i + 1000]
+        value = value * base ** len(chunk) + int(chunk, base)
+    return value
+
+
 @Parser
 def number(ctx, terminator=never):
     # TODO: Macro-11 supports ^R for radix-50. ^R<...> works, ^R^/.../ works, maybe something else works too
@@ -202,7 +211,7 @@ def number(ctx, terminator=never):
                 (ctx_start, ctx, f"{adjective} number was expected after '{prefix}'")
             ))
 
-            return types.Number(ctx_start, ctx, sign_str + prefix + num, int(num, base) * sign, is_valid_label=False)
+            return types.Number(ctx_start, ctx, sign_str + prefix + num, to_int(num, base) * sign, is_valid_label=False)
 
     # Every other kind of number is also a valid local symbol literal. Parse it as such first.
     num = local_symbol_literal(ctx)
@@ -226,7 +235,7 @@ def number(ctx, terminator=never):
     if num.isdigit():
         if has_dot:
             # Decimal
-            return types.Number(ctx_start, ctx, f"{sign_str}{num}.", int(num, 10) * sign, is_valid_label=False)
+            return types.Number(ctx_start, ctx, f"{sign_str}{num}.", to_int(num, 10) * sign, is_valid_label=False)
 
         if "8" in num or "9" in num:
             # Should be octal, but is not. This should be parsed as a local label, but it would be
@@ -244,9 +253,9 @@ def number(ctx, terminator=never):
                 )
                 # Don't set invalid_base8 because we have already reported that for better
                 # responsibility.
-                return types.Number(ctx_start, ctx, f"-{num}", int(num, 10) * sign, is_valid_label=False, invalid_base8=False)
+                return types.Number(ctx_start, ctx, f"-{num}", to_int(num, 10) * sign, is_valid_label=False, invalid_base8=False)
 
-            return types.Number(ctx_start, ctx, num, int(num, 10) * sign, is_valid_label=True, invalid_base8=True)
+            return types.Number(ctx_start, ctx, num, to_int(num, 10) * sign, is_valid_label=True, invalid_base8=True)
 
         # The easy part--an octal number
         return types.Number(ctx_start, ctx, f"{sign_str}{num}", int(num, 8) * sign, is_valid_label=sign == 1)
